@@ -109,6 +109,12 @@ fn all_ops(s: &str, t: &str, offsets: &[usize]) -> u64 {
 fn offsets_for(len: usize) -> Vec<usize> {
     let mut v: Vec<usize> = (0..=len + 2).collect();
     v.extend([usize::MAX, usize::MAX - 1, usize::MAX / 2, 1usize << 32, (1usize << 31) - 1]);
+    // aliases of in-label positions modulo 2^8 .. 2^63
+    for p in 0..=len {
+        for sh in [8u32, 16, 31, 32, 63] {
+            v.push(p.wrapping_add(1usize << sh));
+        }
+    }
     v
 }
 
@@ -231,7 +237,7 @@ pub fn run(run: &Run) {
             idx += n as u64;
         }
     });
-    let pl: Vec<&str> = super::pipe::PAYLOADS_SPACE.iter().chain(super::pipe::PAYLOADS_FREE.iter()).chain(super::pipe::PAYLOADS_USER.iter()).copied().collect();
+    let pl: Vec<&str> = super::pipe::PAYLOADS_FAMILIES.iter().chain(super::pipe::PAYLOADS_SPACE.iter()).chain(super::pipe::PAYLOADS_FREE.iter()).chain(super::pipe::PAYLOADS_USER.iter()).copied().collect();
     super::pipe::stress(run, "alignment_and_runs", &pl, &|s, l| {
         let t: String = s.chars().rev().collect();
         match check_string(s, &t, l) {
